@@ -5,6 +5,7 @@ import ast
 from .. import paths, state
 from .. import prange as PR
 from ..loader import AnalysisError, ClassInfo, norm_stmt
+from ..small import arms
 from ..state import Edge as E
 
 GEN = "field/generator.py"
@@ -172,10 +173,11 @@ def locality(ctx, rule="R11.5"):
     pre = prog.func("field/base.py", "Field.pre_pos")
     ifs = [s for s in pre.body if isinstance(s, ast.If) and "mesh_type" in ast.unparse(s.test)]
     ok = False
-    if ifs:
-        txt_then = " ".join(norm_stmt(s) for s in ifs[-1].body)
-        txt_else = " ".join(norm_stmt(s) for s in ifs[-1].orelse)
-        ok = ast.unparse(ifs[-1].test) == "self.mesh_type != 'unstructured'" and txt_then == "pos = generate_grid(self.pos)" and txt_else == "pos = self.pos"
+    if ifs and arms(ifs[-1], "self.mesh_type != 'unstructured'") is not None:
+        a_st, a_un = arms(ifs[-1], "self.mesh_type != 'unstructured'")
+        txt_then = " ".join(norm_stmt(s) for s in a_st)
+        txt_else = " ".join(norm_stmt(s) for s in a_un)
+        ok = txt_then == "pos = generate_grid(self.pos)" and txt_else == "pos = self.pos"
     ctx.check(ok, rule, "field/base.py::Field.pre_pos", "structured axes are expanded with generate_grid to the full point list, unstructured positions are used as given", "expand")
     rets = [s for s in pre.body if isinstance(s, ast.Return)]
     ok = any("self.model.isometrize(pos)" in ast.unparse(r) for r in rets)
